@@ -448,7 +448,7 @@ func sha256OfParam(v ssa.Value, param string) bool {
 			return false
 		}
 		p, ok := cc.Args[0].(*ssa.Parameter)
-		if !ok || p.Name() != param || !instrDominates(ref, sum) {
+		if !ok || paramName(p) != param || !instrDominates(ref, sum) {
 			return false
 		}
 		writes++
